@@ -7,12 +7,16 @@ from vlib.driver import run_cases
 def main():
     a = parse_args("C08")
     chk = Check("C08", "other", a.tier)
-    names = corpus.select("c08")  # LIA queries are cheap: the whole corpus in both tiers
+    names = [n for n in corpus.select("c08") if a.tier == "thorough" or "grid" not in corpus.REG[n]["tags"] or "q" in corpus.REG[n]["tags"]]  # LIA queries are cheap: everything but the generated grid in quick
     if a.only:
         names = [n for n in names if n in a.only.split(",")]
     run_cases(chk, "vlib.kernelprops", "bounds", names, {"tier": a.tier}, a.jobs)
     if True:
         run_cases(chk, "vlib.kernelprops", "bounds", corpus.select("c08sf", quick=(a.tier == "quick")), {"tier": a.tier, "options": {"sum_factorization": True}}, a.jobs)
+    from vlib import randforms
+    rnames = [randforms.name_of(chk.seed, i) for i in range(12 if a.tier == "quick" else 160)] if not a.only else []
+    run_cases(chk, "vlib.kernelprops", "bounds", rnames, {"tier": a.tier}, a.jobs)
+    chk.extra["random_forms"] = len(rnames)
     chk.encoded("every array access site of every generated kernel (loops not unrolled; loop indices, entity index and permutation code are z3 Ints)")
     chk.bounds = {"programs": len(names), "loop variables": "symbolic in [begin,end)", "entity index": "all valid local entities of the kernel's facet type",
                   "permutation code": "0..#perms-1 of the facet type", "extents": "from the form: sum element dims (x2 for dS), constant sizes, 3 x nodes (x2), prod argument dims; 0/1/2 entity and 0/2 permutation entries"}
